@@ -257,7 +257,10 @@ def _worker(args):
                     acc.count('inputs')
                     orc.check(cls, qn, data, tag)
     except core.Timeout:
-        acc.violation('Timeout@' + qn, 'work item did not finish in 900 s', {'cls': qn, 'kind': kind, 'idx': idx})
+        # the item-level watchdog is a budget of this harness, not a clause of the property (run time is C19's
+        # subject): the item is reported as cut, the run as capped
+        acc.count('work_items_cut_by_watchdog')
+        acc.sample({'cut_by_watchdog': qn, 'kind': kind, 'idx': idx, 'seconds': 900}, 3)
     for o in orc.outcomes:
         acc.state(core.h64('outcome', qn, o))
     return acc.result()
@@ -268,6 +271,9 @@ def run(ctx):
     ctx.notes['work_items'] = len(items)
     ctx.notes['framing_classes'] = sorted(framing())
     ctx.pmap(_worker, items)
+    if ctx.counters.get('work_items_cut_by_watchdog'):
+        ctx.cap('%d work items cut by the 900 s per-item watchdog (their remaining inputs were not run)'
+                % ctx.counters['work_items_cut_by_watchdog'])
     ctx.assumptions += [
         'undocumented exception types are C02 violations and are skipped here',
         'declared frame length is read by an independent 3-6 line header reader per framing class',
